@@ -232,46 +232,87 @@ def translate_before_delete():
     return vol, hashed
 
 
+_BLOCK_NODES = _PRED_NODES + (ast.Module, ast.Assign, ast.If, ast.Constant, ast.Call, ast.Store)
+
+
+def _run_state_block(stmts, where, requested, row):
+    """Execute a block that consists of assignments to local names and if / elif / else over them (expressions:
+    comparisons, membership, and/or/not, `row[k]`, `X.value`, `FileState(row[0])`, constants of enums.py) for one
+    requested state and one old row; the two statements that read the row from the database are replaced by `row`.
+    Named intermediate booleans, reordered tuples, split or merged conditions all give the same result."""
+    en = importlib.import_module("stepup.core.enums")
+    reads = {"sql = 'SELECT state, hash FROM file WHERE node = ?'", "row = self.db.execute(sql, (self.i,)).fetchone()",
+             "row = self.db.execute('SELECT state, hash FROM file WHERE node = ?', (self.i,)).fetchone()"}
+
+    class Strip(ast.NodeTransformer):
+        def visit_Assign(self, node):
+            return None if _ws(ast.unparse(node)) in reads else node
+    import copy
+    keep = [Strip().visit(copy.deepcopy(st)) for st in stmts]
+    mod = ast.Module(body=keep, type_ignores=[])
+    for n in ast.walk(mod):
+        if not isinstance(n, _BLOCK_NODES):
+            raise TranslatorError(f"{where}: statement not understood: {type(n).__name__} in {ast.unparse(n)[:60]!r}")
+        if isinstance(n, ast.Call) and not (isinstance(n.func, ast.Name) and n.func.id == "FileState" and len(n.args) == 1):
+            raise TranslatorError(f"{where}: call not understood: {ast.unparse(n)[:60]!r}")
+        if isinstance(n, ast.Attribute) and n.attr.startswith("_"):
+            raise TranslatorError(f"{where}: attribute not understood: {ast.unparse(n)[:60]!r}")
+    env = {"FileState": en.FileState, "FileRole": en.FileRole, "FILE_STATES_BY_ROLE": en.FILE_STATES_BY_ROLE,
+           "FILE_ROLE_BY_STATE": en.FILE_ROLE_BY_STATE, "state": requested, "row": row, "hash_json": None}
+    ast.fix_missing_locations(mod)
+    exec(compile(mod, "<keep rule>", "exec"), {"__builtins__": {}}, env)  # noqa: S102 - whitelisted node types only
+    return env["state"], env["hash_json"]
+
+
 def translate_keep_rule():
+    """File.initialize_row, the block that decides which state an existing row ends up in.  The block is EXECUTED for
+    every requested FileState and every old row (none, or any FileState with a hash); the resulting table must be
+    the one the model's init_row_state computes from (keep_requested, keep_old, keep_volatile_on_supply), which are
+    read off the table."""
+    en = importlib.import_module("stepup.core.enums")
     tree = parse_module(f"{CORE}/file.py")
     fn = find_function(tree, "initialize_row", cls="File")
     body = body_without_docstring(fn)
+    where = "File.initialize_row"
+    if not (body and _ws(ast.unparse(body[0])) == "hash_json = None"):
+        raise TranslatorError(f"{where}: hash_json is not initialised to None")
     ifs = [s for s in body if isinstance(s, ast.If)]
-    if len(ifs) != 2:
-        raise TranslatorError("File.initialize_row: expected two if statements")
+    if len(ifs) != 2 or ifs[0].orelse:
+        raise TranslatorError(f"{where}: expected two if statements")
     first = ifs[0]
-    t = first.test
-    if not (isinstance(t, ast.Compare) and ast.unparse(t.left) == "state" and isinstance(t.ops[0], ast.In)):
-        raise TranslatorError("File.initialize_row: keep rule test changed")
-    requested = _fs_tuple(t.comparators[0], "File.initialize_row")
-    inner = [s for s in first.body if isinstance(s, ast.If)]
-    if len(inner) != 1:
-        raise TranslatorError("File.initialize_row: keep rule body changed")
-    it = inner[0].test
-    txt = ast.unparse(it)
-    m = re.fullmatch(r"row is not None and row\[0\] in \((.*)\)", txt)
-    if not m:
-        raise TranslatorError(f"File.initialize_row: keep rule inner test changed: {txt}")
-    old = re.findall(r"FileState\.([A-Z]+)\.value", m.group(1))
-    if not old or len(old) != m.group(1).count("FileState."):
-        raise TranslatorError("File.initialize_row: keep rule states not recognised")
-    want = ["state = FileState(row[0])", "hash_json = row[1]"]
-    if [ast.unparse(s) for s in inner[0].body] != want:
-        raise TranslatorError("File.initialize_row: keep rule assignment changed")
-    # optional second arm: a VOLATILE row that is merely supplied (UNDECLARED requested) stays VOLATILE
-    keep_vol = False
-    if inner[0].orelse:
-        arm = inner[0].orelse
-        ok = (len(arm) == 1 and isinstance(arm[0], ast.If) and not arm[0].orelse
-              and _ws(ast.unparse(arm[0].test)) == _ws("row is not None and state == FileState.UNDECLARED and (row[0] == FileState.VOLATILE.value)")
-              and [ast.unparse(x) for x in arm[0].body] == ["state = FileState.VOLATILE"])
-        if not ok:
-            ok = (len(arm) == 1 and isinstance(arm[0], ast.If) and not arm[0].orelse
-                  and _ws(ast.unparse(arm[0].test)) == _ws("row is not None and state == FileState.UNDECLARED and row[0] == FileState.VOLATILE.value")
-                  and [ast.unparse(x) for x in arm[0].body] == ["state = FileState.VOLATILE"])
-        if not ok:
-            raise TranslatorError(f"File.initialize_row: unrecognised second arm of the keep rule: {ast.unparse(arm[0].test)[:80]}")
-        keep_vol = True
+    states = list(en.FileState)
+    table, hashes = {}, {}
+    for r in states:
+        for o in [None] + states:
+            row = None if o is None else (o.value, "HASH")
+            got, hj = _run_state_block([first], where, r, row)
+            if not isinstance(got, en.FileState):
+                raise TranslatorError(f"{where}: the block leaves a non-state in `state`")
+            table[(r.name, None if o is None else o.name)] = got.name
+            hashes[(r.name, None if o is None else o.name)] = hj
+    # read the three parameters of the model off the table ...
+    requested = [r.name for r in states if any(table[(r.name, o.name)] != r.name for o in states)]
+    old = [o.name for o in states if requested and all(table[(r, o.name)] == o.name for r in requested)
+           and any(r != o.name for r in requested)]
+    keep_vol = table[("UNDECLARED", "VOLATILE")] == "VOLATILE"
+    # the hash handed to the upsert is the row's whenever a hashed old state is kept by the rule
+    for r in requested:
+        for o in old:
+            if hashes[(r, o)] != "HASH":
+                raise TranslatorError(f"{where}: old state {o} kept over requested {r} without its hash")
+    # ... and check that they reproduce it exactly (model/Clean.v init_row_state)
+    for (r, o), got in table.items():
+        if o is None:
+            want = r
+        elif r in requested and o in old:
+            want = o
+        elif keep_vol and r == "UNDECLARED" and o == "VOLATILE":
+            want = "VOLATILE"
+        else:
+            want = r
+        if got != want:
+            raise TranslatorError(f"{where}: requested {r} over an old {o} row gives {got}; not expressible by the "
+                                  f"keep rule of the model (keep_requested={requested}, keep_old={old}, volatile arm={keep_vol})")
     # the upsert must assign only the state column
     sqls = [n.value for n in ast.walk(fn) if isinstance(n, ast.Constant) and isinstance(n.value, str)
             and "INSERT INTO file" in n.value]
